@@ -65,8 +65,8 @@ CHECKS = {
    note="Bounds and stubs as C03. Outside: BatchPreload's parallel path (>=11 ids), DeltasSizeWithoutTempAddresses/HasUnsavedChanges (being added). Quick: 3 owned identifiers over two owners plus a separate run with 1 owned + 1 temporary identifier; thorough: 3 owned, and 2 owned + temporary.",
    ref="6/C15"),
  "C16": dict(
-   text="FastCommit and NondeterministicFastCommit with 2 workers as modelled goroutines: every sync-level interleaving (up to partial-order equivalence) of workers and committer is explored with a vector-clock happens-before detector on every heap and map access; a data race, deadlock, send on closed channel or panic in a worker is a violation (races are confirmed natively with the Go race detector before being reported). The parallel result (registers, write set, cache, error) equals the sequential overlay model, with symbolic encode failures per slab. Pool discipline of the real encoders over the real CBOR library: after encoding an array, a map or an array with an inlined child -- successfully or with the first or second element failing -- two consecutive Gets from each process-wide pool return distinct objects (no buffer was returned twice).",
-   note="Bounds: 2 (quick) / 3 (thorough) pending entries, 2 workers; scheduling points at channel send/receive, blocking select and WaitGroup.Wait (close, non-blocking select and Done are ordered with their goroutine's neighbouring points). EncodeSlab is the abstract codec, so races inside the real encoders/pools are not seen here. Outside: BatchPreload's parallel path, independent client goroutines sharing the process-wide pools (sequential pool discipline only), GOMAXPROCS/real-scheduler effects.",
+   text="FastCommit and NondeterministicFastCommit with 2 workers as modelled goroutines: every sync-level interleaving (up to partial-order equivalence) of workers and committer is explored with a vector-clock happens-before detector on every heap and map access; a data race, deadlock, send on closed channel or panic in a worker is a violation (races are confirmed natively with the Go race detector before being reported). The parallel result (registers, write set, cache, error) equals the sequential overlay model, with symbolic encode failures per slab. Pool discipline of the real encoders over the real CBOR library: after encoding an array, a map or an array with an inlined child -- successfully or with the first or second element failing -- two consecutive Gets from each process-wide pool return distinct objects (no buffer was returned twice). Independent clients: two modelled goroutines, each with its own storage and containers, encode through the real encoders and the real CBOR library concurrently (optionally after an unrelated client's failing encode); the process-wide pools are scheduling points with Put->Get happens-before, all interleavings are explored: each client gets exactly the bytes it gets alone and no data race is seen on pooled buffers or package-level settings. Parallel BatchPreload (11..12 identifiers, 2..3 workers, missing register, pending change, failing read) on one canonical schedule with the happens-before detector: cache and view equal the sequential path.",
+   note="Bounds: 2 (quick) / 3 (thorough) pending entries, 2 workers; scheduling points at channel send/receive, blocking select and WaitGroup.Wait (close, non-blocking select and Done are ordered with their goroutine's neighbouring points). EncodeSlab is the abstract codec, so races inside the real encoders/pools are not seen here. Outside: interleavings of the parallel BatchPreload beyond the canonical one, more than two concurrent clients, GOMAXPROCS/real-scheduler effects.",
    ref="6/C16"),
  "C17": dict(
    text="NewArrayFromBatchData on every stream of 0..7 (quick) / 0..10 (thorough) elements of symbolic size (incl. larger than the inline limit): result passes VerifyArray, equals the stream, leaks nothing and accepts a further operation; NewMapFromBatchData on 0..3 / 0..4 keys with all digests symbolic: unsorted first-level digests are rejected with HashError, otherwise VerifyMap, content, given seed, and source order (without first-level collisions); CopyNonRefSimple is offered exactly for single-slab arrays whose elements are all plain (symbolic mix of plain, wrapped, large-value reference and nested array), then succeeds with a valid, equal, fresh-id copy that is independent of the source under mutation of either; byte slice <-> byte array round-trips for symbolic bytes and symbolic size estimate (both build paths), rejecting foreign elements as a caller mistake. Map copy: offered for single-slab maps of plain values, yields a valid equal map with a fresh identifier that stays independent of the source under remove / insert (any digest) / update applied to either.",
